@@ -89,7 +89,7 @@ def compare_values(r, exp, max_points=None):
         subs = {}
         for n, v in pt.items():
             if n in r.inputs:
-                subs[n] = v if isinstance(v, int) else (float(v) if np.ndim(v) == 0 else Tensor(np.array(v)))
+                subs[n] = v if isinstance(v, int) else Tensor(np.array(v, dtype=np.float64))
         try:
             g = r(**subs) if subs else r
         except Exception as e:  # noqa
